@@ -167,7 +167,8 @@ def inv_twins(ctx):
             if e == AUTO_ADD[cls]:
                 _fresh(bad, kind, "twin", e, pre_tw, tw)
         # direction B: edit the source, the twin must not change
-        for e in edits[::3] + ATTR_EDITS + NESTED_EDITS + [AUTO_ADD[cls]]:
+        light = spec.name.endswith("-deep")
+        for e in (edits[::3] + [AUTO_ADD[cls]]) if light else (edits[::3] + ATTR_EDITS + NESTED_EDITS + [AUTO_ADD[cls]]):
             s2 = spec.build(hist, ctx.ns)
             tw = _twin(kind, s2)
             tk = C.state_key(tw)
@@ -184,6 +185,8 @@ def inv_twins(ctx):
             # a second twin of the same, now edited, object: equal to what the object is now (nothing remembered from the
             # first twin may be served again)
             try:
+                if light:
+                    continue
                 now = C.snapshot(s2)
                 tw2 = _twin(kind, s2)
                 t2 = C.snapshot(tw2)
@@ -238,10 +241,23 @@ def _gen_alpha(static, nested, drop=("H.cleanup", "xgi.", "H.merge_duplicate_edg
 
 
 def specs(tier):
+    q = tier == "quick"
+    sp = _specs("quick" if q else "thorough-wide")
+    if not q:
+        # one level deeper with the first-generation oracle only (twin equal, edits do not leak, fresh IDs); the second
+        # twin after each source edit stays at depth 2, where it is exhaustive over all initial states
+        deep = _specs("thorough")[:3]
+        for d in deep:
+            d.name += "-deep"
+        sp += deep
+    return sp
+
+
+def _specs(tier):
     from checks import c02, c03
 
     q = tier == "quick"
-    depth = 2 if q else 3
+    depth = 3 if tier == "thorough" else 2
     seeds_h = histcheck.SEEDS_H[:4] if q else histcheck.SEEDS_H
     return [
         explore.Spec("hypergraph-twins", seeds_h, _gen_alpha(A.hypergraph_static(), NESTED_H),
